@@ -6,7 +6,22 @@ import (
 
 // operand pairs whose sum / difference / product lands next to a multiple of n before reduction
 func (m *M) scalarPair() (string, string, *big.Int, *big.Int) {
-	switch m.rng.Intn(10) {
+	switch m.rng.Intn(12) {
+	case 10, 11: // the STORED (Montgomery) limbs of the two values differ in one bit, or in one limb only
+		wa := new(big.Int).Mod(new(big.Int).Mul(m.randBig(bigN), bigR), bigN)
+		if m.rng.Intn(2) == 0 {
+			wa = new(big.Int).Mod(m.nearMontConst(bigN), bigN)
+		}
+		wb := new(big.Int).Set(wa)
+		if m.rng.Intn(2) == 0 {
+			i := m.rng.Intn(256)
+			wb.SetBit(wb, i, wb.Bit(i)^1)
+		} else {
+			sh := uint(64 * m.rng.Intn(4))
+			wb.Xor(wb, new(big.Int).Lsh(new(big.Int).SetUint64(m.rng.Uint64()), sh))
+		}
+		wb.Mod(wb, bigN)
+		return "mont_limb_neighbours", "", mulmod(wa, rInvN, bigN), mulmod(wb, rInvN, bigN)
 	case 8, 9: // the two values share their low 64-bit limbs and differ in an upper one (or only there)
 		b := m.randBig(bigN)
 		if m.rng.Intn(2) == 0 {
@@ -222,7 +237,10 @@ func genC07(m *M, budget int) {
 
 // genC13: comparisons and conditional selection.
 func genC13(m *M, budget int) {
-	conds := []uint64{0, 1, 2, 3, 1 << 32, 1 << 63, ^uint64(0), 0xfffffffffffffffe, 1 << 1, 1 << 8}
+	conds := []uint64{0, 1, 2, 3, 1 << 32, 1 << 63, ^uint64(0), 0xfffffffffffffffe, 1 << 1, 1 << 8,
+		// relations between the two 32-bit halves / the four 16-bit quarters (folding and truncation slips)
+		0x8000000080000000, 0xffffffff00000001, 0x00000001ffffffff, 0x0000000100000001, 0xffffffffffff0000, 0x0001000000000000,
+		0x7fffffff80000001, 0xaaaaaaaa55555556, 0x0000ffff00000000, 0x00000000ffffffff, 0xffffffff00000000}
 	for m.events < budget {
 		m.reset()
 		for i := 0; i < 12; i++ {
@@ -241,8 +259,15 @@ func genC13(m *M, budget int) {
 			m.SIsZero(0)
 			m.SIsOne(1)
 			c := conds[m.rng.Intn(len(conds))]
-			if m.rng.Intn(3) == 0 {
+			switch m.rng.Intn(6) {
+			case 0:
 				c = m.rng.Uint64()
+			case 1: // halves that cancel under addition / xor
+				h := uint64(m.rng.Uint32())
+				c = h<<32 | uint64(uint32(-int32(h)))
+			case 2:
+				h := uint64(m.rng.Uint32())
+				c = h<<32 | h
 			}
 			m.SCSelect(2, c, 0, 1)
 			m.SCSelect(0, c, 0, 1) // receiver is the first operand
